@@ -632,6 +632,9 @@ where
                 }
                 Target::Resolved(n) => {
                     self.scope.enter_function();
+                    // Remember how many query cursors are open, so that a `return`
+                    // out of a `map` body in the callee releases the callee's cursors.
+                    self.call_state.push(self.query_iter_stack.len());
                     // Store the current PC. The PC will be incremented after return,
                     // so there's no need to increment here.
                     self.call_state.push(self.pc);
@@ -655,6 +658,7 @@ where
                     self.ctx = CommandContext::Recall(c);
 
                     self.scope.enter_function();
+                    self.call_state.push(self.query_iter_stack.len());
                     // Store the current PC. The PC will be incremented after return,
                     // so there's no need to increment here.
                     self.call_state.push(self.pc);
@@ -671,6 +675,12 @@ where
                     .call_state
                     .pop()
                     .ok_or_else(|| self.err(MachineErrorType::CallStack))?;
+                // Release the query cursors the callee left open.
+                let open_cursors = self
+                    .call_state
+                    .pop()
+                    .ok_or_else(|| self.err(MachineErrorType::CallStack))?;
+                self.query_iter_stack.truncate(open_cursors);
                 self.scope.exit_function().map_err(|e| self.err(e))?;
             }
             Instruction::ExtCall(module, proc) => {
@@ -1237,6 +1247,7 @@ where
     fn setup_function(&mut self, label: &Label) -> Result<(), MachineError> {
         self.set_pc_by_label(label)?;
         self.call_state.clear();
+        self.query_iter_stack.clear();
         self.scope.clear();
 
         Ok(())
